@@ -77,7 +77,180 @@ fn sample_indices(rng: &mut Rng, n: usize, want: usize) -> Vec<usize> {
     v
 }
 
+fn trim(mut v: Vec<Fr>) -> Vec<Fr> {
+    while v.last().map(|c| *c == Fr::zero()).unwrap_or(false) {
+        v.pop();
+    }
+    v
+}
+
+fn poly_len(rng: &mut Rng) -> usize {
+    match rng.below(12) {
+        0 => 0,
+        1 => 1,
+        2 => 2 + rng.usize(15),
+        3 => 17 + rng.usize(48),
+        4 => 255 + rng.usize(3),
+        5 => 1000 + rng.usize(100),
+        6 => 1023 + rng.usize(3),
+        7 => 2047 + rng.usize(3),
+        8 => 1100 + rng.usize(1900),
+        9 => 3000 + rng.usize(1200),
+        _ => 1 + rng.usize(300),
+    }
+}
+
+/// The serial kernels of the property (polynomial arithmetic, evaluation, division by a linear
+/// factor, batch inversion) against schoolbook arithmetic, under the same seeded pools and
+/// schedules as the FFT family: they have no parallel path today, so this is also the guard
+/// against one being introduced (any such path is immediately under the schedule seam).
+fn run_poly(ctx: &mut RunCtx) -> Result<(), Violation> {
+    let mut w = ctx.stream("workload");
+    let mut s = ctx.stream("sched");
+    let la = poly_len(&mut w);
+    let lb = if w.chance(1, 4) { la } else { poly_len(&mut w) };
+    let a = gen_vector(&mut w, la);
+    let b = gen_vector(&mut w, lb);
+    let sc = match w.below(5) {
+        0 => Fr::zero(),
+        1 => Fr::one(),
+        2 => -Fr::one(),
+        _ => w.scalar(),
+    };
+    let z = if w.chance(1, 6) { Fr::zero() } else { w.scalar() };
+    let canon = EnvCfg::canonical();
+    let envs: Vec<EnvCfg> = (0..3).map(|_| ctx.env(&mut s)).collect();
+    ctx.note("kernel_family", J::s("polynomial arithmetic / batch inversion"));
+    ctx.note("lengths", J::s(format!("{} {}", la, lb)));
+    let sig = digest(&bytes_of(&a)) ^ digest(&bytes_of(&b)).rotate_left(17) ^ 0x9017;
+    let (ta, tb) = (trim(a.clone()), trim(b.clone()));
+    let at = |v: &[Fr], i: usize| v.get(i).copied().unwrap_or(Fr::zero());
+    // --- expected values by schoolbook arithmetic
+    let m = ta.len().max(tb.len());
+    let exp_add = trim((0..m).map(|i| at(&ta, i) + at(&tb, i)).collect());
+    let exp_sub = trim((0..m).map(|i| at(&ta, i) - at(&tb, i)).collect());
+    let exp_axpy = trim((0..m).map(|i| at(&ta, i) + sc * at(&tb, i)).collect());
+    let exp_scale = trim(ta.iter().map(|c| *c * sc).collect());
+    let exp_mul: Option<Vec<Fr>> = if ta.is_empty() || tb.is_empty() {
+        Some(Vec::new())
+    } else if ta.len() * tb.len() <= 1 << 14 {
+        let mut r = vec![Fr::zero(); ta.len() + tb.len() - 1];
+        for (i, x) in ta.iter().enumerate() {
+            for (j, y) in tb.iter().enumerate() {
+                r[i + j] += *x * *y;
+            }
+        }
+        Some(trim(r))
+    } else {
+        None
+    };
+    // synthetic division of a by (X - z): q_{k-1} = a_k + z q_k
+    let exp_ruffini = {
+        let mut q = vec![Fr::zero(); ta.len().saturating_sub(1)];
+        let mut carry = Fr::zero();
+        for k in (1..ta.len()).rev() {
+            carry = ta[k] + z * carry;
+            q[k - 1] = carry;
+        }
+        trim(q)
+    };
+    let run_all = |env: &EnvCfg| -> Result<Vec<Vec<Fr>>, String> {
+        guarded(|| {
+            under(env, || {
+                let mut inv = a.clone();
+                kernels::batch_inversion(&mut inv);
+                vec![
+                    kernels::poly_add(&a, &b),
+                    kernels::poly_sub(&a, &b),
+                    kernels::poly_add_assign_scaled(&a, sc, &b),
+                    kernels::poly_scale(&a, &sc),
+                    kernels::poly_mul(&a, &b),
+                    kernels::poly_ruffini(&a, z),
+                    vec![kernels::poly_evaluate(&a, &z), kernels::poly_evaluate(&a, &Fr::one()), kernels::poly_evaluate(&b, &Fr::zero())],
+                    inv,
+                ]
+            })
+        })
+    };
+    let names = ["polynomial addition", "polynomial subtraction", "scaled addition (p += s*q)", "scalar multiplication", "polynomial multiplication", "division by a linear factor (ruffini)", "evaluation", "batch inversion"];
+    let out = run_all(&canon).map_err(|p| Violation::new("panic", format!("polynomial kernel panicked (lengths {} {}): {}", la, lb, p)))?;
+    ctx.st.steps += 8;
+    for env in &envs {
+        let o2 = run_all(env).map_err(|p| Violation::new("panic", format!("polynomial kernel panicked under [{}]: {}", env.describe(), p)))?;
+        ctx.st.steps += 8;
+        for k in 0..out.len() {
+            ctx.st.eval(sig ^ (k as u64) << 8 ^ digest(env.describe().as_bytes()), !env.is_canonical());
+            if o2[k] != out[k] {
+                return Err(Violation::new("I-determ", format!("{} (lengths {} {}) differs between the canonical schedule and [{}]", names[k], la, lb, env.describe())));
+            }
+        }
+    }
+    let def = |k: usize, what: &str| Violation::new("I-definition", format!("{} differs from schoolbook arithmetic (lengths {} {}): {}", names[k], la, lb, what));
+    for (k, exp) in [(0usize, &exp_add), (1, &exp_sub), (2, &exp_axpy), (3, &exp_scale), (5, &exp_ruffini)] {
+        ctx.st.eval(sig ^ 0xd0 ^ k as u64, true);
+        if trim(out[k].clone()) != *exp {
+            return Err(def(k, "coefficients differ"));
+        }
+    }
+    // multiplication: exact for small operands, at three random points (and by degree) otherwise
+    {
+        ctx.st.eval(sig ^ 0xd4, true);
+        let got = trim(out[4].clone());
+        match &exp_mul {
+            Some(e) => {
+                if got != *e {
+                    return Err(def(4, "coefficients differ"));
+                }
+            }
+            None => {
+                ctx.st.probe("poly_mul_checked_at_random_points");
+                if got.len() != ta.len() + tb.len() - 1 {
+                    return Err(def(4, "degree differs"));
+                }
+                for _ in 0..3 {
+                    let x = w.scalar();
+                    if horner(&got, x) != horner(&ta, x) * horner(&tb, x) {
+                        return Err(def(4, "value at a random point differs from the product of the values"));
+                    }
+                }
+            }
+        }
+        if ta.len() + tb.len() > 2048 {
+            ctx.st.probe("poly_mul_domain_ge_2^12");
+        }
+    }
+    // evaluation
+    ctx.st.eval(sig ^ 0xd6, true);
+    if out[6] != vec![horner(&ta, z), horner(&ta, Fr::one()), at(&tb, 0)] {
+        return Err(def(6, "value differs from Horner evaluation"));
+    }
+    // batch inversion: every non-zero entry inverted, zeros left
+    ctx.st.eval(sig ^ 0xd7, true);
+    if out[7].len() != a.len() {
+        return Err(def(7, "length changed"));
+    }
+    for (i, (x, y)) in a.iter().zip(out[7].iter()).enumerate() {
+        let ok = if *x == Fr::zero() { *y == Fr::zero() } else { *x * *y == Fr::one() };
+        if !ok {
+            return Err(def(7, &format!("entry {} of {} is not the inverse (or a zero was not left alone)", i, a.len())));
+        }
+    }
+    if a.len() >= 1024 {
+        ctx.st.probe("batch_inversion_len_ge_1024");
+    }
+    ctx.st.sample(J::obj(vec![
+        ("run", J::U(ctx.run)),
+        ("kernels", J::s("poly add/sub/axpy/scale/mul/ruffini/evaluate, batch_inversion")),
+        ("lengths", J::s(format!("{} {}", la, lb))),
+        ("environments", J::A(envs.iter().map(|e| J::s(e.describe())).collect())),
+    ]));
+    Ok(())
+}
+
 pub fn run(ctx: &mut RunCtx) -> Result<(), Violation> {
+    if ctx.spec.get("k").is_none() && ctx.run % 3 == 2 {
+        return run_poly(ctx);
+    }
     let mut w = ctx.stream("workload");
     let mut s = ctx.stream("sched");
     // domain size 2^k, both sides of the 2^12 parallel threshold
